@@ -23,11 +23,17 @@ Txt(s) == s
 \* ---------------------------------------------------------------- the definitions as text
 DefTexts == [i \in 1..Len(Defs) |-> [name |-> NameB(Defs[i].name), body |-> TextT(Defs[i].body)]]
 
-StyleAt(n) == Style(n % 3, (n \div 3) % 3, (n \div 9) % 3, (n \div 27) % 4, (n \div 108) % 4, (n \div 432) % 2 = 1)
-FileLines(r) == LayFile(DefTexts, [i \in 1..Len(DefTexts) |-> StyleAt((r * 7 + i * 37) % 864)], 1)
+StyleAt(n) == Style(n % 6, (n \div 6) % 3, (n \div 18) % 4, (n \div 72) % 4, (n \div 288) % 4, (n \div 1152) % 2 = 1)
+\* the definitions whose bodies hold backslashes (u7 u8 u9) are cut after backslashes in every second file, so that
+\* physical lines end in 2, 3, .. backslashes and continuation lines start with one
+HasBsl(d) == HasByteL(d.body, BSL)
+StyleFor(r, i) == LET st == StyleAt((r * 7 + i * 37) % 2304) IN
+                  IF HasBsl(DefTexts[i]) /\ r % 2 = 1 THEN [st EXCEPT !.cut = 3 + ((r \div 2) % 3)] ELSE st
+FileLines(r) == LayFile(DefTexts, [i \in 1..Len(DefTexts) |-> StyleFor(r, i)], 1)
+MaxRun(lines) == MaxOf({0} \cup {BslRun(StripLine(lines[i])) : i \in 1..Len(lines)})
 FileRec(r) ==
   LET lines == FileLines(r)  ld == Load(lines) IN
-  [kind |-> "file", id |-> r, doc |-> FALSE, bytes |-> FileBytes(lines, r % 2 = 0), nlines |-> Len(lines),
+  [kind |-> "file", id |-> r, doc |-> FALSE, bytes |-> FileBytes(lines, r % 2 = 0), nlines |-> Len(lines), maxrun |-> MaxRun(lines),
    loaded |-> ld, ok |-> (ld = DefTexts /\ Meaning(lines) = DefTexts)]
 
 \* ---------------------------------------------------------------- the documentation's example
@@ -46,7 +52,7 @@ DocTrees ==
   \cup {T1(Call("name-of-func", <<a, b>>)) : a \in {L(B7), T1(Grp(0))}, b \in {L(B0), T1(Grp(1)), L(Ba)}}
   \cup {T1(Call("name-of-func", <<a>>)) : a \in {L(B7), T1(Grp(0))}}
 DocCtx == <<EmptyBase, Ctx(B7, B7, Ba), Ctx(Word(5), B0, Word(16)), Ctx(Word(20), Ba, Word(3)), Ctx(Ba, E, E)>>
-DocFileRec == [kind |-> "file", id |-> 100000, doc |-> TRUE, bytes |-> FileBytes(DocExample, TRUE), nlines |-> Len(DocExample),
+DocFileRec == [kind |-> "file", id |-> 100000, doc |-> TRUE, bytes |-> FileBytes(DocExample, TRUE), nlines |-> Len(DocExample), maxrun |-> 1,
                loaded |-> Load(DocExample), ok |-> Load(DocExample) = DocMeaning]
 
 \* ---------------------------------------------------------------- contexts of the vectors
@@ -64,10 +70,15 @@ UsesUdfN(nd, defs) == nd.t = "call" /\ (DefIdx(nd.f, defs) > 0 \/ \E i \in 1..Le
 UsesUdfT(t, defs) == \E i \in 1..Len(t) : UsesUdfN(t[i], defs)
 HeadOf(t) == IF Len(t) = 1 /\ t[1].t = "call" THEN t[1].f ELSE "seq"
 
-VecRec(g, t, ctxs, defs) ==
-  [kind |-> "vec", g |-> g[1], f |-> HeadOf(t), tpl |-> TextT(t),
+\* abs: the value itself is demanded (escapes, if any, only in top-level literals - documented); otherwise only the
+\* relations of the property: optimised = unoptimised, call = inlined body, any layout = one line per definition
+VecRec(g, t, sty, ctxs, defs) ==
+  LET st == IF IsUdfCallIn(t, defs) THEN SubstT(defs[DefIdx(t[1].f, defs)].body, t[1].args) ELSE <<>> IN
+  [kind |-> "vec", g |-> g[1], f |-> HeadOf(t), tpl |-> TextS(t, sty), sty |-> sty,
    udf |-> UsesUdfT(t, defs), clock |-> UsesClockT(t),
-   sub |-> IF IsUdfCallIn(t, defs) THEN TextT(SubstT(defs[DefIdx(t[1].f, defs)].body, t[1].args)) ELSE <<>>,
+   abs |-> (~EscInArgsT(t, FALSE) /\ "u8" \notin CallsT(t)),
+   rt |-> RoundTrip(t, sty),
+   sub |-> IF IsUdfCallIn(t, defs) /\ RoundTrip(st, sty) THEN TextS(st, sty) ELSE <<>>,
    cases |-> [i \in 1..Len(ctxs) |-> [m |-> ctxs[i].g, ks |-> ctxs[i].keys, e |-> Enc(ValT(t, ctxs[i], ClkSym, defs))]]]
 
 GenGroups == Groups \cup {<<"files", "">>, <<"doc", "">>, <<"meta", "">>}
@@ -80,10 +91,11 @@ GenItems(g) ==
 Rec(cc) ==
   CASE cc.g[1] = "files" -> FileRec(cc.t[1].n)
     [] cc.g[1] = "meta" -> [kind |-> "defs", defs |-> DefTexts, docdefs |-> DocMeaning]
-    [] cc.g[1] = "doc" -> IF cc.t = T1(Grp(100000)) THEN DocFileRec ELSE VecRec(cc.g, cc.t, DocCtx, DocDefs)
-    [] OTHER -> VecRec(cc.g, cc.t, GenCtx, Defs)
+    [] cc.g[1] = "doc" -> IF cc.t = T1(Grp(100000)) THEN DocFileRec ELSE VecRec(cc.g, cc.t, DefSty, DocCtx, DocDefs)
+    [] cc.g[1] \in EscKinds -> VecRec(cc.g, cc.t, cc.sty, SetToSeq(CtxEsc), Defs)
+    [] OTHER -> VecRec(cc.g, cc.t, DefSty, GenCtx, Defs)
 
-GInit == c \in {[hdr |-> TRUE, g |-> g, t |-> <<>>] : g \in GenGroups}
-GNext == c.hdr /\ \E t \in GenItems(c.g) : c' = [hdr |-> FALSE, g |-> c.g, t |-> t]
+GInit == c \in {Hdr(g) : g \in GenGroups}
+GNext == c.hdr /\ \E t \in GenItems(c.g), sty \in StylesOf(c.g) : c' = [hdr |-> FALSE, g |-> c.g, t |-> t, sty |-> sty]
 Dump == (c.hdr /\ WellScoped(Defs) /\ WellScoped(DocDefs)) \/ PrintT("VFJ " \o ToJson(Rec(c)))
 =============================================================================
